@@ -220,6 +220,9 @@ impl<'a> G<'a> {
         let k = self.knd();
         let obs = self.emit(format!("todirect {} {} {} {}", l, k, h.0, d));
         if obs.starts_with("d ") {
+            if self.rng.chance(20) {
+                self.emit(format!("conv {}", d));
+            }
             self.dirs.push((d, h.1));
         }
     }
@@ -576,6 +579,8 @@ impl<'a> G<'a> {
                 self.dirs.push((nd.clone(), b));
                 self.emit(format!("probe {}", nd));
             }
+            // every conversion of the (dynamically typed) direct handle itself
+            self.emit(format!("conv {}", d.0));
         }
     }
     fn total_len(&self) -> usize {
